@@ -23,6 +23,7 @@ import (
 
 // ---- counting context: Done() is what the interpreter polls ----
 type countCtx struct {
+	onCancel func() // called when the first poll that sees Done is made
 	calls    int
 	cancelAt int // the poll with this index (0-based) and all later ones see Done; -1 never
 	open     chan struct{}
@@ -39,6 +40,9 @@ func (c *countCtx) Done() <-chan struct{} {
 	n := c.calls
 	c.calls++
 	if c.cancelAt >= 0 && n >= c.cancelAt {
+		if n == c.cancelAt && c.onCancel != nil {
+			c.onCancel()
+		}
 		return c.closed
 	}
 	return c.open
@@ -157,6 +161,9 @@ type interpResult struct {
 	Bindings string `json:"bindings"`
 	Polls    int    `json:"polls"`
 	Msg      string `json:"msg,omitempty"`
+	// number of host-pool calls logged when the cancellation was first seen (-1: never cancelled)
+	TraceAtCancel int      `json:"trace_at_cancel"`
+	TraceList     []string `json:"trace_list,omitempty"`
 }
 
 func (r interpResult) line() string {
@@ -186,6 +193,9 @@ func runImpl(stmt anko.Stmt, cancelAt int) (res interpResult) {
 	e := env.NewEnv()
 	h.define(e)
 	ctx := newCountCtx(cancelAt)
+	res.TraceAtCancel = -1
+	atCancel := -1
+	ctx.onCancel = func() { atCancel = len(h.trace) }
 	defer func() {
 		if p := recover(); p != nil {
 			res = interpResult{Status: "panic", Msg: fmt.Sprint(p)}
@@ -194,6 +204,10 @@ func runImpl(stmt anko.Stmt, cancelAt int) (res interpResult) {
 	v, err := vm.RunContext(ctx, e, &vm.Options{Debug: false}, stmt)
 	res.Polls = ctx.calls
 	res.Trace = strings.Join(h.trace, ";")
+	res.TraceAtCancel = atCancel
+	if cancelAt >= 0 {
+		res.TraceList = h.trace
+	}
 	var names []string
 	isHost := map[string]bool{}
 	for _, n := range hostNames {
